@@ -33,14 +33,16 @@ JOBS = {
     "gtfC": ("path", GTF_C),
     "gffA": ("path", GFF_A), "gffB": ("path", GFF_B), "gtfA": ("path", GTF_A), "gtfB": ("path", GTF_B),
     "gffA_str": ("string", GFF_A),
+    "gffA_force": ("force", GFF_A),          # output file already exists; force=True
+    "gffB_url": ("url", GFF_B),              # input given as a file:// URL
 }
-SETS2 = [("gffA", "gffA"), ("gffA", "gffB"), ("gffA", "gtfA"), ("gtfA", "gtfB"), ("gtfA", "gtfA"), ("gffB", "gffA_str"), ("gtfC", "gffB")]
+SETS2 = [("gffA", "gffA"), ("gffA", "gffB"), ("gffA", "gtfA"), ("gtfA", "gtfB"), ("gtfA", "gtfA"), ("gffB", "gffA_str"), ("gtfC", "gffB"), ("gtfA", "gffA_force"), ("gffB_url", "gffA")]
 SETS3 = [("gffA", "gtfA", "gffB"), ("gtfA", "gtfC", "gtfB"), ("gffA", "gffA", "gffA")]
 READERS = [2, 3]
 
 
 def dev_bound(tier):
-    return dict(imports3=1 if tier == "quick" else 2, readers2=2 if tier == "quick" else 3, readers3=1 if tier == "quick" else 2)
+    return dict(imports3=1 if tier == "quick" else 2, readers2=1 if tier == "quick" else 3, readers3=1 if tier == "quick" else 2)
 
 
 def bounds(tier):
@@ -50,7 +52,19 @@ def bounds(tier):
 
 def make_import(kind, lines, outdb, indir, idx):
     text = "\n".join(lines) + "\n"
-    if kind == "path":
+    if kind in ("force", "url"):
+        path = dbutil.write_text(indir, "in%d.txt" % idx, text)
+        if kind == "force":
+            old = gffutils.create_db(dbutil.write_text(indir, "old%d.txt" % idx, "\n".join(GFF_B) + "\n"), outdb, verbose=False)
+            old.conn.close()
+        data = path if kind == "force" else "file://" + path
+
+        def fn():
+            db = gffutils.create_db(data, outdb, verbose=False, force=(kind == "force"))
+            n = db.count_features_of_type()
+            db.conn.close()
+            return n
+    elif kind == "path":
         path = dbutil.write_text(indir, "in%d.txt" % idx, text)
 
         def fn():
@@ -76,7 +90,7 @@ def reference(ctx, job):
         out = os.path.join(d, "ref.db")
         if os.path.exists(out):
             os.unlink(out)
-        make_import(kind, lines, out, d, 0)()
+        make_import("path" if kind in ("force", "url") else kind, lines, out, d, 0)()
         ctx.memo[key] = dbutil.canon(out)
     return ctx.memo[key]
 
@@ -89,6 +103,16 @@ def run_imports(ch, ctx, jobs):
     for d in (shared, indir, outdir):
         os.makedirs(d)
     refs = [reference(ctx, j) for j in jobs]
+    # the controlling process itself ran an import with this very temp directory before starting the workers
+    import tempfile
+    saved = tempfile.tempdir
+    tempfile.tempdir = shared
+    try:
+        os.makedirs(os.path.join(outdir, "warm"))
+        make_import("path", GFF_B, os.path.join(outdir, "warm", "annotation.db"), indir, 99)()
+    finally:
+        tempfile.tempdir = saved
+    pre = sorted(os.listdir(shared))
     fns = []
     outs = []
     for i, j in enumerate(jobs):
@@ -99,6 +123,7 @@ def run_imports(ch, ctx, jobs):
         fns.append(make_import(JOBS[j][0], JOBS[j][1], out, indir, i))
     children, schedule, stats = sched.run_schedule(ch, fns, shared)
     sig = dict(jobs="+".join(jobs))
+    ctx.check(not pre, "temp-files-left-behind", dict(sig, only_from_string_copies=False, by="solitary warm-up import"), left=pre)
     interleaved = stats["switches"] > len(jobs) - 1
     collided = any(op == "os.open+excl" and sum(1 for c in children for o in c.trace if o == (op, arg)) > 1
                    for c in children for (op, arg) in c.trace)
@@ -161,32 +186,43 @@ def run_readers(ch, ctx, n):
 
 
 def shards(tier):
-    out = [("imports2", s, first) for s in SETS2 for first in (0, 1)]
-    out += [("imports3", s, first) for s in SETS3 for first in (0, 1, 2)]
-    out += [("readers", n, first) for n in READERS for first in range(n)]
+    # the shard fixes the first two scheduling decisions (parallelism across workers)
+    out = [("imports2", s, (a, b)) for s in SETS2 for a in (0, 1) for b in (0, 1)]
+    out += [("imports3", s, (a, b)) for s in SETS3 for a in (0, 1, 2) for b in (0, 1, 2)]
+    out += [("readers", n, (a, b)) for n in READERS for a in range(n) for b in range(n)]
     return out
 
 
+class SkipShard(Exception):
+    pass
+
+
+class Fixed(object):
+    """Chooser wrapper: the first len(prefix) decisions are fixed by the shard."""
+
+    def __init__(self, ch, prefix):
+        self.ch, self.prefix, self.i = ch, tuple(prefix), 0
+
+    def choose(self, label, options):
+        if self.i < len(self.prefix):
+            k = self.prefix[self.i]
+            self.i += 1
+            if k >= len(options):
+                raise SkipShard()         # this combination of first moves does not exist
+            return options[k]
+        return self.ch.choose(label, options)
+
+
 def body(ch, ctx):
-    kind, what, first = ctx.shard
-    # the shard fixes who makes the very first move (parallelism across workers)
-    class First(object):
-        def __init__(self, ch):
-            self.ch, self.used = ch, False
-
-        def choose(self, label, options):
-            if not self.used:
-                self.used = True
-                if first < len(options):
-                    return options[first]
-                return options[0]
-            return self.ch.choose(label, options)
-
-    fch = First(ch)
-    if kind.startswith("imports"):
-        run_imports(fch, ctx, what)
-    else:
-        run_readers(fch, ctx, what)
+    kind, what, prefix = ctx.shard
+    fch = Fixed(ch, prefix)
+    try:
+        if kind.startswith("imports"):
+            run_imports(fch, ctx, what)
+        else:
+            run_readers(fch, ctx, what)
+    except SkipShard:
+        ctx.outcome("no-such-first-moves")
 
 
 def run(tier, seed):
@@ -208,8 +244,9 @@ def run(tier, seed):
     total = choice.ShardResult()
     per = {}
     for name, shs, bound in groups:
+        tg = time.time()
         r = pool.explore(body, shs, tier, seed, max_dev=bound, sample_every=211)
-        per[name] = dict(executions=r.executions, states=r.nodes, deviation_bound=bound, pruned_by_bound=r.pruned_by_bound,
+        per[name] = dict(wall_s=round(time.time() - tg, 1), executions=r.executions, states=r.nodes, deviation_bound=bound, pruned_by_bound=r.pruned_by_bound,
                          interleaved=r.counters.get("interleaved", 0), name_collisions=r.counters.get("name_collisions", 0),
                          max_depth=r.maxdepth)
         total.merge(r)
@@ -222,8 +259,7 @@ def run(tier, seed):
     random.Random(seed).shuffle(samples)
 
     def confirm(v):
-        ch, ctx = pool.replay(body, tuple(v["shard"]) if isinstance(v["shard"], list) else v["shard"], v["choices"], tier, seed)
-        return any(x.sigkey() == json.dumps(v["sig"], sort_keys=True, default=str) for x in ctx.violations)
+        return pool.replay_isolated(body, v, tier, seed)
 
     vac = []
     if per["imports2"]["interleaved"] == 0 or per["imports2"]["name_collisions"] == 0:
@@ -235,7 +271,7 @@ def run(tier, seed):
         extra=dict(per_group=per, exhaustive_note="2-process imports: every interleaving; other groups: every schedule within the stated deviation bound",
                    two_process_imports_exhaustive=True),
         caps=["deviation bound (see per_group)"])
-    if vac:
+    if vac and rc == 0:
         print("ENGINE-ERROR: vacuous exploration: %s" % "; ".join(vac))
         return 2
     return rc
